@@ -42,6 +42,14 @@ class Prop(common.PropertyCheck):
         for _ in range(self.budget(120, 1500)):
             yield {'k': 'data', 'neg': rng.choice(['none', 'tiny', 'small', 'large']), 'multi': rng.random() < 0.4,
                    'cont': rng.choice(['array', 'sample', 'sample_rfi']), 'over': rng.choice([None, 'T', 'M', 'W']), 'above': rng.random() < 0.4, 'seed': rng.randrange(1 << 30)}
+        # lists mixing samples (range known) and plain arrays (range unknown): each contributes by its own rule
+        for i in range(self.budget(10, 100)):
+            yield {'k': 'data', 'neg': ['none', 'small', 'large', 'tiny'][i % 4], 'multi': True, 'cont': 'mixed', 'over': [None, None, 'M', 'W'][i % 4], 'above': False,
+                   'seed': rng.randrange(1 << 30)}
+        # the same object used for a transform, changed in place, and used again: the parameters follow the data passed in
+        for i in range(self.budget(10, 100)):
+            yield {'k': 'data', 'neg': ['none', 'small', 'none', 'tiny'][i % 4], 'multi': i % 3 == 0, 'cont': ['array', 'sample', 'sample_rfi'][i % 3], 'over': None, 'above': False,
+                   'seed': rng.randrange(1 << 30), 'modify': ['subtract', 'scale', 'clip'][i % 3]}
         # data sets without a known range whose largest value is not positive: the derived T must be refused
         for neg in ('allzero', 'nonpos', 'allzero', 'nonpos'):
             yield {'k': 'data', 'neg': neg, 'multi': rng.random() < 0.5, 'cont': 'array', 'over': rng.choice([None, 'M', 'W']), 'seed': rng.randrange(1 << 30)}
@@ -93,8 +101,8 @@ class Prop(common.PropertyCheck):
             datas, mins, maxs, ranges = [], [], [], []
             for i in range(nsamp):
                 n = 50
-                if case['cont'] == 'array':
-                    a = r.lognormal(4 + i, 1.0, size=(n, 2))
+                if case['cont'] == 'array' or (case['cont'] == 'mixed' and (i + case['seed']) % 2 == 0):
+                    a = r.lognormal(4 + i, 1.0, size=(n, 2)) if case['cont'] != 'mixed' else r.lognormal(1.0, 0.5, size=(n, 2))
                     if case['neg'] == 'allzero':
                         a[:, 1] = 0.0
                     elif case['neg'] == 'nonpos':
@@ -115,6 +123,8 @@ class Prop(common.PropertyCheck):
                         d[0, 1] = {'tiny': -1e-6 * (i + 1), 'small': -3.0 * (i + 1), 'large': -500.0 * (i + 1)}[case['neg']]
                     else:
                         d[:, 1] = np.abs(np.asarray(d[:, 1]))
+                    if case['cont'] == 'mixed':
+                        d[:, 1] = np.minimum(np.asarray(d[:, 1]), 0.4 * rng_hi)      # no event near the top of the range: range and largest event differ
                     if case.get('above'):
                         d[2, 1] = 7.5 * rng_hi          # an event far above the channel's range: T stays the range limit
                 datas.append(d)
@@ -128,6 +138,18 @@ class Prop(common.PropertyCheck):
             elif case['over'] == 'W':
                 kw['W'] = 0.7
             try:
+                if case.get('modify'):
+                    FlowCal.plot._LogicleTransform(data=datas if case['multi'] else datas[0], channel=1, **kw)
+                    mins, maxs = [], []
+                    for d in datas:
+                        v = np.asarray(d)            # a view of the caller's object: the object itself is changed
+                        if case['modify'] == 'subtract':
+                            v[:, 1] -= 40.0
+                        elif case['modify'] == 'scale':
+                            v[:, 1] *= 3.0
+                        else:
+                            v[:, 1] = np.clip(v[:, 1], 1.0, 50.0)
+                        mins.append(float(v[:, 1].min())); maxs.append(float(v[:, 1].max()))
                 t = FlowCal.plot._LogicleTransform(data=datas if case['multi'] else datas[0], channel=1, **kw)
             except Exception as e:
                 return {'err': type(e).__name__ + ':' + str(e)[:80], 'mins': mins, 'maxs': maxs, 'ranges': ranges, 'kw': kw}
@@ -171,10 +193,8 @@ class Prop(common.PropertyCheck):
             return None
         # data-derived
         kw = impl['kw']
-        if all(r is not None for r in impl['ranges']):
-            T = max(impl['ranges'])
-        else:
-            T = max(impl['maxs'])
+        # per sample: the upper range limit where the sample knows its range, its largest event otherwise
+        T = max(r if r is not None else mx for r, mx in zip(impl['ranges'], impl['maxs']))
         T = kw.get('T', T)
         if T <= 0:
             if str(impl.get('err', '')).startswith('ValueError'):
